@@ -135,4 +135,16 @@ mut("C04 divisor indexed by the parent graph", [(PRE, "                        /
 mut("C04 base case returns zero", [(PRE, "            let j_function = 1.0;\n            table[subgraph_id.id].j_function = Some(j_function);", "            let j_function = 0.0;\n            table[subgraph_id.id].j_function = Some(j_function);")], C04="C04-a")
 mut("C04 gamma of dod replaced by gamma of dod+1", [(PRE, "let gamma_omega = gamma(tropical_graph.dod);", "let gamma_omega = gamma(tropical_graph.dod + 1.0);")], C04="C04-b")
 
+# ---- C20 ----
+mut("C20 exp becomes exp2", [(FLO, "        f64::exp(*self)", "        f64::exp2(*self)")], C20="C20-a")
+mut("C20 abs becomes identity", [(FLO, "        f64::abs(*self)", "        *self")], C20="C20-a")
+mut("C20 from_isize through i32", [(FLO, "        value as f64\n", "        f64::from(value as i32)\n")], C20="C20-a")
+mut("C20 PI truncated", [(FLO, "        f64::consts::PI\n", "        3.14159265358979\n")], C20="C20-a")
+mut("C20 inv is negation", [(FLO, "        1.0 / self", "        -1.0 / self")], C20="C20-a")
+mut("C20 dot via rfold", [(VEC, "            .zip(rhs.elements.iter())\n            .fold(self.elements[0].zero(), |acc, (left, right)| {", "            .zip(rhs.elements.iter())\n            .rfold(self.elements[0].zero(), |acc, (left, right)| {")], C20="C20-b")
+mut("C20 AddAssign skips component 0", [(VEC, "        for i in 0..D {\n            self[i] += &rhs[i];", "        for i in 1..D {\n            self[i] += &rhs[i];")], C20="C20-b")
+mut("C20 sub adds", [(VEC, "elements: array::from_fn(|i| self[i].ref_sub(&rhs[i])),", "elements: array::from_fn(|i| self[i].ref_add(&rhs[i])),")], C20="C20-b")
+mut("C20 squared uses first component", [(VEC, ".fold(self.elements[0].zero(), |acc, x| acc + x.ref_mul(x))", ".fold(self.elements[0].zero(), |acc, x| acc + x.ref_mul(&self.elements[0]))")], C20="C20-b")
+mut("C20 N: commuted products", [(VEC, "                acc + left.ref_mul(right)", "                right.ref_mul(left) + acc")], C20=None)
+
 MUTATIONS = M
